@@ -75,14 +75,15 @@ FIXED_SEEN = []
 FIXED_EXPECTED = "fixed slotref A:outer_nonempty=1,inner_empty=1 B:inner_empty=1,outer_empty=1,copy_empty=0 C:inner_empty=1,outer_empty=1 D:outer2_empty=1"
 
 
-def build_and_run(cases, workdir, variant="asan"):
+def build_and_run(cases, workdir, variant="asan", keep_opt=False):
     """compile the cases in TUs of PER_TU, run them; returns {idx: output line} and compile failures"""
     os.makedirs(workdir, exist_ok=True)
     libdir, err = lib_build(variant)
     if err:
         return None, err
     cxx, flags = VARIANTS[variant]
-    flags = [f for f in flags if f != "-O1"] + ["-O0"]
+    if not keep_opt:
+        flags = [f for f in flags if f != "-O1"] + ["-O0"]
     probe_o = os.path.join(workdir, "probe.o")
     p = vc_run([cxx, "-std=c++17"] + flags + ["-I", libdir, "-I", REPO, "-c", os.path.join(VERIF, "harness", "probe.cc"), "-o", probe_o])
     if p.returncode != 0:
@@ -292,6 +293,14 @@ def directed_cases(pid, start):
         out.append(C(0, ("hide", -1, t), rv, ["r", "v"], [11, 22]))
         out.append(C(0, ("bind", -1, t if t[0] not in ("retype", "slot") else (t[0], ("hide", -1, leaf), [("O", False), ("O", False)], True), [("v", 55)]), rv, ["r"], [11]))
         out.append(C(0, t, rv, ["r"], [11]))
+    # every position of bind<I> / hide<I> with by-value arguments (the rvalue route hands temporaries in:
+    # an argument moved from twice, or in an order the compiler chooses, shows here)
+    for n in (2, 3, 4):
+        for loc in range(0, n + 1):
+            out.append(C(0, ("bind", loc, ("leaf", 5, 0), [("v", 40), ("v", 41)]), True, ["v"] * n, [11 * (j + 1) for j in range(n)]))
+        for loc in range(0, n):
+            out.append(C(0, ("hide", loc, ("leaf", 5, 0)), True, ["v"] * n, [11 * (j + 1) for j in range(n)]))
+            out.append(C(0, ("hide", loc, ("bind", 1, ("leaf", 5, 0), [("v", 40)])), True, ["v"] * n, [11 * (j + 1) for j in range(n)]))
     # exception_catch over a throwing functor: a catcher that returns, and one that rethrows (the
     # exception must reach the caller through every route), alone and under other adaptors
     thr = ("leaf", 6, 1)
